@@ -67,6 +67,10 @@ def items(tier, seed):
             out.append({'h': 'off', 'name': name, 'S': S, 'opts': dict(o, lang='de'), 'ml': True})
     for n in range(0, 4):
         out.append({'h': 'nums', 'n': n})
+    # the whole filter on every string of <= N arbitrary characters (all code points)
+    for n in range(0, 3 if tier == 'quick' else 4):
+        for ml in (False, True):
+            out.append({'h': 'any', 'N': n, 'ml': ml, 'cost': 30 ** n, 'budget': 900 if n < 3 else 4000})
     # vacuity twins: the same harness with the upper bound lowered by one must be refuted
     out.append({'h': 'off', 'name': 'twin', 'S': 'A $x', 'opts': {}, 'ml': False, 'twin': True})
     out.append({'h': 'off', 'name': 'twin2', 'S': 'A B', 'opts': {}, 'ml': False, 'twin': True})
@@ -117,9 +121,27 @@ def build_nums(item):
     return prop, concrete
 
 
+def build_any(item):
+    from vf import sketch
+    n = item['N']
+
+    def orc(h0, doc, flat, diags):
+        for lab, plain, cm in flat:
+            if len(plain) != len(cm):
+                return 'C01 length: len(plain)=%d len(map)=%d for %r' % (len(plain), len(cm), doc)
+            for k, p in enumerate(cm):
+                if not (1 <= p <= len(doc)):
+                    return 'C01 range: map[%d]=%d not in 1..%d for %r' % (k, p, len(doc), doc)
+        return None
+    return sketch.make('', '', 'ANY', n, {'lang': 'de'} if item['ml'] else {}, orc, ml=item['ml'],
+                       lmin=n, splice=False, accept_exit=True)
+
+
 def build(item):
     if item['h'] == 'nums':
         return build_nums(item)
+    if item['h'] == 'any':
+        return build_any(item)
     S = item['S']
     pre_ok, suf_ok = srcmodel.rebase_ok(S, nosp=bool(item['opts'].get('nosp')))
     return offrun.make(S, item['opts'], item['ml'], None, pre_ok, suf_ok,
